@@ -5,8 +5,8 @@ from vf.models import max_matching, max_matching_brute
 
 ID = "C07"
 LEVEL = "exploration"
-ENGINE = "E0 pure"
-TECHNIQUE = "bounded-exhaustive enumeration of layouts + Hypothesis random layouts, validity predicate and independent maximum-matching reference, metamorphic re-labelling"
+ENGINE = "E0 pure + E2 detgrid (upload family)"
+TECHNIQUE = "bounded-exhaustive enumeration of layouts + Hypothesis random layouts, validity predicate and independent maximum-matching reference, metamorphic re-labelling; whole uploads on the deterministic in-process grid with servers that are full, read-only, fill up after connecting or fail an allocation (reachability oracle)"
 RULE = ("exhaustive: all layouts with S servers (every read-only subset leaving >=1 writable), H shares and every existing-share "
         "relation for the (S,H) bounds of the tier; random: up to 20 servers x 30 shares. Each layout is evaluated under 2 server "
         "labelings (changes set/dict iteration and sort order). Non-trivial = >=1 read-only server holding a share and >=1 writable "
